@@ -135,6 +135,20 @@ def progressPrefixes : ProgressCfg → List String
   | .annotations p :: ls => p :: progressPrefixes ls
   | .status _ :: ls => progressPrefixes ls
 
+/-- the leaf storages of a diff-base configuration. -/
+def diffbaseLeaves : DiffBaseCfg → List DiffBaseLeaf
+  | .leaf l => [l]
+  | .multi ls => ls
+
+/-- `k0` is one of the operator's own annotation names for the object `body`: an exact key of one of
+    the configured `AnnotationsDiffBaseStorage`s (as `make_keys(key, body=body)` forms it, `-ofDRS`
+    mark included), or a name under the prefix of a configured `AnnotationsProgressStorage`
+    (handler records, touch-dummy). -/
+def OwnKeyOf (cfg : Cfg) (body : J) (k0 : String) : Prop :=
+  (∃ p key v1 ig mk ks, DiffBaseLeaf.annotations p key v1 ig ∈ diffbaseLeaves cfg.diffbase ∧
+      markKey body key.toList = .ok mk ∧ makeKeys cfg.hashes v1 p.toList mk = .ok ks ∧ k0 ∈ ks) ∨
+  (∃ q, q ∈ progressPrefixes cfg.progress ∧ underPrefix q.toList k0 = true)
+
 /-- the annotation `k` is not under any prefix the operator's own storages use. -/
 def NotOwn (cfg : Cfg) (k : String) : Prop :=
   ∀ p, p ∈ diffbasePrefixes cfg.diffbase ++ progressPrefixes cfg.progress → underPrefix p.toList k = false
